@@ -7,6 +7,7 @@ import (
 
 	hclog "github.com/hashicorp/go-hclog"
 	"github.com/hashicorp/go-plugin/internal/verifhook"
+	"github.com/hashicorp/yamux"
 )
 
 // This file exists only under the "verif" build tag. It gives the external
@@ -29,6 +30,9 @@ func VerifGRPCBrokers(c *GRPCClient, s *GRPCServer) (*GRPCBroker, *GRPCBroker) {
 
 // VerifMuxBroker returns the broker of a net/rpc client.
 func VerifMuxBroker(c *RPCClient) *MuxBroker { return c.broker }
+
+// VerifMuxSession returns the yamux session under a MuxBroker (to open raw streams).
+func VerifMuxSession(b *MuxBroker) *yamux.Session { return b.session }
 
 // VerifKilled exposes (*Client).killed.
 func VerifKilled(c *Client) bool { return c.killed() }
